@@ -2,6 +2,12 @@
 //  sim <seed> <n>    : random histories of addIssue (all three levels) and removeError on the REAL
 //                      Logger::LoggerImpl; after every step the public accessors are compared
 //                      with an independent shadow list.  Prints the first failing history.
+//  imports <dir>     : permissive and strict importers resolve component / units imports from CellML 1.1 and 2.0
+//                      documents with and without parse errors (files written to <dir>); after each call the
+//                      importer's accessors must be coherent and a false result must come with an issue.
+//  lookups           : Annotator::item(id, index) / item(id) / component(id, index) for identifiers carried by 0, 1, 2 items and
+//                      indices 0..3 (each scenario in a child process: a crash is a finding): an undefined/null result must
+//                      come with an issue, a defined result must be an item that carries the identifier.
 //  rules             : calls Issue::referenceHeading()/url() for every ReferenceRule value.
 #include <cstdio>
 #include <cstdlib>
@@ -10,8 +16,21 @@
 #include <string>
 #include <vector>
 
+#include <fstream>
+#include <sys/wait.h>
+#include <unistd.h>
+
+#include "libcellml/annotator.h"
+#include "libcellml/variable.h"
+
+#include "libcellml/component.h"
+#include "libcellml/importer.h"
+#include "libcellml/importsource.h"
 #include "libcellml/issue.h"
 #include "libcellml/logger.h"
+#include "libcellml/model.h"
+#include "libcellml/parser.h"
+#include "libcellml/units.h"
 
 #include "issue_p.h"
 #include "logger_p.h"
@@ -56,8 +75,73 @@ static bool coherent(TestLogger &L, const std::vector<IssuePtr> &shadow, std::st
     return true;
 }
 
+// coherence of any Logger through the public accessors only
+static bool publicCoherent(const LoggerPtr &L, std::string &why)
+{
+    try {
+        size_t total = L->issueCount();
+        if (total != L->errorCount() + L->warningCount() + L->messageCount()) { why = "issueCount != errorCount+warningCount+messageCount"; return false; }
+        size_t ke = 0, kw = 0, km = 0;
+        for (size_t k = 0; k < total; ++k) {
+            auto i = L->issue(k);
+            if (i == nullptr) { why = "issue(k) is null for k < issueCount()"; return false; }
+            if (i->description().empty()) { why = "an issue has an empty description"; return false; }
+            auto lv = i->level();
+            IssuePtr got = lv == Issue::Level::ERROR ? L->error(ke++) : lv == Issue::Level::WARNING ? L->warning(kw++) : L->message(km++);
+            if (got != i) { why = "error(i)/warning(i)/message(i) does not enumerate the issues of that level in order"; return false; }
+        }
+        if (ke != L->errorCount() || kw != L->warningCount() || km != L->messageCount()) { why = "per-level count differs from the issues of that level"; return false; }
+        if (L->issue(total) != nullptr || L->error(ke) != nullptr || L->warning(kw) != nullptr || L->message(km) != nullptr) { why = "out-of-range index does not return null"; return false; }
+    } catch (const std::exception &e) {
+        why = std::string("a Logger accessor threw ") + e.what();
+        return false;
+    }
+    return true;
+}
+
+static std::string libraryDoc(const std::string &ns, bool unrelatedError, bool targetError, bool unitsError)
+{
+    std::string s = "<?xml version=\"1.0\" encoding=\"UTF-8\"?>\n<model xmlns=\"http://www.cellml.org/cellml/" + ns + "#\" name=\"library\">\n";
+    s += "  <units name=\"u\"><unit units=\"second\"/>" + std::string(unitsError ? "<unit/>" : "") + "</units>\n";
+    s += "  <component name=\"good\"><variable name=\"x\" units=\"second\"/>" + std::string(targetError ? "<variable units=\"second\"/>" : "") + "</component>\n";
+    if (unrelatedError) s += "  <component name=\"noisy\"><variable units=\"second\"/><variable units=\"second\"/></component>\n";
+    return s + "</model>\n";
+}
+
 int main(int argc, char **argv)
 {
+    if (argc >= 3 && !strcmp(argv[1], "imports")) {
+        std::string dir = std::string(argv[2]) + "/";
+        int scenarios = 0;
+        for (int mask = 0; mask < 64; ++mask) {
+            bool v11 = mask & 1, unrelated = mask & 2, target = mask & 4, unitsErr = mask & 8, strict = mask & 16, missing = mask & 32;
+            { std::ofstream o(dir + "lib.xml"); o << libraryDoc(v11 ? "1.1" : "2.0", unrelated, target, unitsErr); }
+            std::string main = "<?xml version=\"1.0\" encoding=\"UTF-8\"?>\n<model xmlns=\"http://www.cellml.org/cellml/2.0#\" xmlns:xlink=\"http://www.w3.org/1999/xlink\" name=\"main\">\n"
+                               "  <import xlink:href=\"lib.xml\"><component name=\"c1\" component_ref=\"good\"/></import>\n"
+                               "  <import xlink:href=\"lib.xml\"><units name=\"u1\" units_ref=\"u\"/></import>\n";
+            if (missing) main += "  <import xlink:href=\"nowhere.xml\"><component name=\"c2\" component_ref=\"zz\"/></import>\n";
+            main += "</model>\n";
+            auto parser = Parser::create();
+            auto model = parser->parseModel(main);
+            auto importer = Importer::create(strict);
+            bool ok = importer->resolveImports(model, dir);
+            ++scenarios;
+            std::string why;
+            char tag[200];
+            snprintf(tag, sizeof(tag), "cellml%s,%s%s%s%s%s", v11 ? "1.1" : "2.0", strict ? "strict" : "permissive", unrelated ? ",unrelated-parse-errors" : "", target ? ",error-in-imported-component" : "",
+                     unitsErr ? ",error-in-imported-units" : "", missing ? ",missing-file" : "");
+            if (!publicCoherent(importer, why)) {
+                printf("IMPORTS violates=1 scenario=%s why=%s (issues=%zu errors=%zu warnings=%zu messages=%zu)\n", tag, why.c_str(), importer->issueCount(), importer->errorCount(), importer->warningCount(), importer->messageCount());
+                return 0;
+            }
+            if (!ok && importer->issueCount() == 0) {
+                printf("IMPORTS violates=1 scenario=%s why=resolveImports returned false with an empty issue list\n", tag);
+                return 0;
+            }
+        }
+        printf("IMPORTS violates=0 scenarios=%d\n", scenarios);
+        return 0;
+    }
     if (argc >= 2 && !strcmp(argv[1], "sim")) {
         unsigned seed = argc > 2 ? unsigned(atol(argv[2])) : 0;
         long n = argc > 3 ? atol(argv[3]) : 20000;
@@ -105,6 +189,57 @@ int main(int argc, char **argv)
             }
         }
         printf("SIM violates=0 histories=%ld\n", n);
+        return 0;
+    }
+    if (argc >= 2 && !strcmp(argv[1], "lookups")) {
+        int scenarios = 0;
+        for (int count = 0; count <= 2; ++count) {
+            for (int index = -1; index <= 3; ++index) {      // -1: the unique lookup item(id)
+                for (int kind = 0; kind < 2; ++kind) {        // 0: item(), 1: component()
+                    ++scenarios;
+                    fflush(stdout);
+                    pid_t pid = fork();
+                    if (pid == 0) {
+                        auto m = Model::create("m");
+                        for (int k = 0; k < 3; ++k) {
+                            auto c = Component::create("c" + std::to_string(k));
+                            c->setId(k < count ? "theid" : "other" + std::to_string(k));
+                            m->addComponent(c);
+                        }
+                        auto a = Annotator::create();
+                        a->setModel(m);
+                        bool defined, right = true;
+                        if (kind == 0) {
+                            auto it = index < 0 ? a->item("theid") : a->item("theid", size_t(index));
+                            defined = it != nullptr && it->type() != CellmlElementType::UNDEFINED;
+                            if (defined) right = it->component() != nullptr && it->component()->id() == "theid";
+                        } else {
+                            auto c = index < 0 ? a->component("theid") : a->component("theid", size_t(index));
+                            defined = c != nullptr;
+                            if (defined) right = c->id() == "theid";
+                        }
+                        if (!defined && a->issueCount() == 0) _exit(3);
+                        if (defined && !right) _exit(4);
+                        bool expectDefined = index < 0 ? count == 1 : index < count;
+                        if (defined != expectDefined) _exit(5);
+                        _exit(0);
+                    }
+                    int st = 0;
+                    waitpid(pid, &st, 0);
+                    const char *why = nullptr;
+                    if (WIFSIGNALED(st)) why = "the real code crashed (signal)";
+                    else if (WEXITSTATUS(st) == 3) why = "the lookup failed (undefined item / null) with an empty issue list";
+                    else if (WEXITSTATUS(st) == 4) why = "the lookup returned an item that does not carry the identifier";
+                    else if (WEXITSTATUS(st) == 5) why = "the lookup result does not match the number of items carrying the identifier";
+                    if (why) {
+                        printf("LOOKUPS violates=1 scenario=%s(\"theid\"%s%s),items-with-that-id=%d why=%s%s\n", kind ? "component" : "item", index < 0 ? "" : ",", index < 0 ? "" : std::to_string(index).c_str(), count, why,
+                               WIFSIGNALED(st) ? (" " + std::to_string(WTERMSIG(st))).c_str() : "");
+                        return 0;
+                    }
+                }
+            }
+        }
+        printf("LOOKUPS violates=0 scenarios=%d\n", scenarios);
         return 0;
     }
     if (argc >= 2 && !strcmp(argv[1], "rules")) {
